@@ -77,7 +77,10 @@ def oracle(case, recs, out, stats):
                     eq = op.index("=") if "=" in op else len(op)
                     n = "%d[%s]" % (cid, ",".join(op[2:eq]))
                     targets = [n] if n in before else []
-                    if op[0] == "set" and res != "ok":
+                    # with recalculation on, the assignment is made and a dependent that is recomputed at once may
+                    # fail: the error comes out of the assignment, but the assignment was not refused
+                    recalc_failed = op[0] == "set" and recalc and res.startswith("err Formula")
+                    if op[0] == "set" and res != "ok" and not recalc_failed:
                         targets = []        # a refused assignment (unhashable key, None not allowed) changes nothing
                 elif op[0] == "clear":
                     targets = [x for x, v in before.items() if x.startswith("%d[" % cid) and v.endswith("C")]
@@ -88,7 +91,7 @@ def oracle(case, recs, out, stats):
                     gone |= {x for x in descendants(edges, t) if not x.endswith("*")}
                 expect = {x: v for x, v in before.items() if x not in gone}
                 leaves = []
-                if op[0] == "set" and res == "ok":
+                if op[0] == "set" and (res == "ok" or recalc_failed):
                     expect[n] = op[eq + 1] + "I"
                     if recalc and n in before:
                         ds = descendants(edges, n)
@@ -100,7 +103,7 @@ def oracle(case, recs, out, stats):
                     stats["oracle_recalc_edits"] += 1
                     # the leaves (and what they need) were recomputed at once; nothing else changed
                     for x in leaves:
-                        if x not in after:
+                        if x not in after and not recalc_failed:
                             out.fail("recalc: former leaf dependent %s not recomputed after %s" % (x, " ".join(op)), hist)
                     extra = {x: v for x, v in after.items() if x not in expect}
                     lazy = _lazy_values(case, k, list(extra))
